@@ -46,7 +46,17 @@ type c10Layout struct {
 	// action and reusable workflow correctly: they have no diagnostic iff they are attributed to
 	// the repository that contains them
 	Clean  []string
+	// Dirty lists probe workflows which misuse their own repository's local action and reusable
+	// workflow: file -> names that must each be named by exactly one diagnostic (and nothing else
+	// is reported). A callee that is silently not found makes these disappear.
+	Dirty  map[string][]string
 	Traits []string
+}
+
+func c10ProbeBad(tag string) (string, []string) {
+	return "on: push\njobs:\n  own:\n    runs-on: ubuntu-latest\n    steps:\n      - uses: ./act\n        with:\n          wrong_" + tag + ": x\n" +
+			"  call:\n    uses: ./.github/workflows/reusable.yml\n    with:\n      nope_" + tag + ": x\n",
+		[]string{"\"wrong_" + tag + "\"", "\"in_" + tag + "\"", "\"nope_" + tag + "\"", "\"rin_" + tag + "\"", "\"sec_" + tag + "\""}
 }
 
 func c10Probe(tag string) string {
@@ -177,6 +187,14 @@ func c10AddRepoGit(l *c10Layout, r *Rand, dir, tag string, nwf int, withConfig, 
 		l.Lint = append(l.Lint, p)
 		l.Clean = append(l.Clean, p)
 	}
+	if l.Dirty == nil {
+		l.Dirty = map[string][]string{}
+	}
+	pb := filepath.Join(dir, ".github", "workflows", "probe-bad.yml")
+	src, want := c10ProbeBad(tag)
+	l.Files[pb] = src
+	l.Lint = append(l.Lint, pb)
+	l.Dirty[pb] = want
 }
 
 var c10LayoutNames = []string{"one-repo", "two-repos", "prefix-siblings", "nested-repos", "repo-and-loose-files", "one-repo-many-files", "monorepo-mirror-cwd-inside"}
@@ -308,6 +326,26 @@ func c10IsolationCase(out *workerOut, r *Rand, idx int, root, tier string) {
 			return
 		}
 		out.count("clean_probes_confirmed", 1)
+	}
+	for f, want := range lay.Dirty {
+		ok := len(alone[f]) == len(want)
+		for _, w := range want {
+			n := 0
+			for _, k := range alone[f] {
+				if strings.Contains(k[:strings.Index(k+" available", " available")], w) || strings.HasPrefix(k[strings.Index(k, ": ")+2:], "input "+w) || strings.HasPrefix(k[strings.Index(k, ": ")+2:], "missing input "+w) || strings.HasPrefix(k[strings.Index(k, ": ")+2:], "secret "+w) {
+					n++
+				}
+			}
+			if n < 1 {
+				ok = false
+			}
+		}
+		if !ok {
+			out.viol(idx, "C10:attribution:"+lay.Name+":misuse-of-own-action-or-workflow-not-reported-exactly", fmt.Sprintf("file %s misuses its own repository's local action and reusable workflow (undefined input, missing required input, missing secret); linted alone it must get exactly one diagnostic naming each of %v (layout %s, traits %v)", f, want, lay.Name, lay.Traits),
+				detail(map[string]interface{}{"file": f, "alone": alone[f], "must_name": want}))
+			return
+		}
+		out.count("dirty_probes_confirmed", 1)
 	}
 	// config hashes of every repository (explicit Project objects for the shared-config check)
 	nvar := 6
